@@ -377,6 +377,13 @@ pub fn run(tier: Tier, seed: u64) -> i32 {
                                 format!("walleye --fen={:?} -T -d 1: exit status {:?}, stdout {:?}, stderr {:?} (expected an error message or a perft line and exit 0)", super::rules_driver::truncate(s, 160), o.status, super::rules_driver::truncate(o.stdout.trim(), 120), super::rules_driver::truncate(o.stderr.trim(), 200)),
                                 case,
                             );
+                        } else if !wl && o.stdout.contains("Searched to a depth of") && matches!(par::catch(|| crate::board::BoardState::from_fen(s).is_ok()), Ok(false)) {
+                            // the front end prints THAT error: what loading rejects must not be run
+                            acc.violation(
+                                format!("C15|cli-ran-what-loading-rejects|{}", super::rules_driver::truncate(s, 120)),
+                                format!("walleye --fen={:?} -T -d 1 ran a perft ({:?}) although loading this string reports an error", super::rules_driver::truncate(s, 160), super::rules_driver::truncate(o.stdout.trim(), 120)),
+                                case,
+                            );
                         } else if wl && !o.stdout.contains("Searched to a depth of 1") {
                             acc.violation(
                                 format!("C15|cli-rejected|{}", s),
@@ -449,6 +456,14 @@ pub fn run(tier: Tier, seed: u64) -> i32 {
                     }
                     if o.timed_out {
                         acc.inconclusive.push(format!("cli run timed out on bytes {}", hex));
+                    } else if o.stdout.contains("Searched to a depth of") && matches!(par::catch(|| crate::board::BoardState::from_fen(&String::from_utf8_lossy(&bytes)).is_ok()), Ok(false)) {
+                        // bytes that are no text cannot be a FEN; the nearest text (invalid
+                        // sequences replaced) is rejected by the loader, so an error must be printed
+                        acc.violation(
+                            format!("C15|cli-bytes-ran|{}", super::rules_driver::truncate(&hex, 120)),
+                            format!("walleye --fen=<bytes {}> -T -d 1 ran a perft ({:?}) instead of printing the load error", super::rules_driver::truncate(&hex, 160), super::rules_driver::truncate(o.stdout.trim(), 120)),
+                            case,
+                        );
                     } else if o.status != Some(0) || o.stderr.contains("panicked") || o.stdout.trim().is_empty() {
                         acc.violation(
                             format!("C15|cli-bytes|{}", super::rules_driver::truncate(&hex, 120)),
